@@ -492,6 +492,18 @@ func parseStops(csv *csv.File, inheritWheelchairBoarding bool) []Stop {
 		}
 		stops[i].Parent = &stops[parentStopIndex]
 	}
+	// Break cycles in the parent relation so that Stop.Root always terminates: a stop whose chain
+	// of parents does not end within len(stops) steps is part of, or leads to, a cycle and loses its parent.
+	for i := range stops {
+		steps := 0
+		for p := &stops[i]; p.Parent != nil; p = p.Parent {
+			steps++
+			if steps > len(stops) {
+				stops[i].Parent = nil
+				break
+			}
+		}
+	}
 
 	// Inherit wheelchair boarding from parent stops if specified.
 	if inheritWheelchairBoarding {
